@@ -1,6 +1,7 @@
 import NA.Proofs.VpnGraphFinal
 import NA.Proofs.VpnGraphRefs
 import NA.Proofs.VpnGraphFuel
+import NA.Proofs.VpnGraphStable
 /-!
 # Named object graphs of the ASA backend (fragment G): usernames, address-named tunnel-groups, group-policies,
 access-lists kept or replaced as a whole, ip local pools, aaa-servers
@@ -108,6 +109,36 @@ theorem graph_chain_protected (st : St) (k : Obj) (hk : k ∈ st.a) (hkeep : (!s
     ∀ p ∈ pendingDel st, p.id ≠ r :=
   protected_not_pending st r (chain_protected st k hk hkeep n r hch hn)
 
+/-! ## C01: "unchanged" only for an equivalent device; convergence reduced to the second compare -/
+
+/-- **"Unchanged" is reported only for an equivalent device.**  For ALL well-formed pairs of configurations of fragment G
+(`wfB`: references resolve and go to kinds of lower rank, new objects are not empty; `wf2B`: keys fix the kind and the presence
+of a reference, no duplicate top-level command / sub-command key inside one object, a pool has one content line, anchors are
+usernames / tunnel-groups and are anchors on both sides — all decidable, evaluated by the driver on every generated case):
+if the model emits NO command, then
+  * every anchor of the device is an anchor of the target and vice versa, and
+  * every anchor has the same content on both sides (`eqv`: the same top-level commands, the same sub-commands, and whatever
+    they reference has — recursively — the same content; names of referenced objects do not count).
+The empty change list cannot hide a difference. -/
+theorem graph_unchanged_only_if_equivalent (a b : List Obj) (hw : wfB a b = true) (h2 : wf2B a b = true)
+    (h : engine a b = some []) :
+    (∀ o ∈ a, o.anchor = true → ∃ o' ∈ b, o'.anchor = true ∧ o'.id = o.id) ∧
+    (∀ o' ∈ b, o'.anchor = true → ∃ o ∈ a, o.anchor = true ∧ o.id = o'.id) ∧
+    (∀ o ∈ a, o.anchor = true → eqv fuel a b o.id o.id = true) :=
+  unchanged_equiv a b (wf_of_wfB a b hw) (wf2_of_wf2B a b h2) h
+
+/-- **Convergence, for the (decidable) class of runs whose second compare is empty**: if the strict device accepts the
+script, the resulting configuration is well-formed with the target and a second compare of it emits nothing (`stable` —
+checked by the driver on every case of the tie, and against the real second `drc` run), then the resulting device has
+exactly the target's anchors, each with the target's content.  (Not proved: that the second compare IS empty for every
+well-formed pair — `graph_idempotent`; see docs/VPN.md.) -/
+theorem graph_converges_partial (a b : List Obj) (d' : Dev) (_hex : (engine a b).bind (execAll { objs := a }) = some d')
+    (hw : wfB d'.objs b = true) (h2 : wf2B d'.objs b = true) (hstable : engine d'.objs b = some []) :
+    (∀ o ∈ d'.objs, o.anchor = true → ∃ o' ∈ b, o'.anchor = true ∧ o'.id = o.id) ∧
+    (∀ o' ∈ b, o'.anchor = true → ∃ o ∈ d'.objs, o.anchor = true ∧ o.id = o'.id) ∧
+    (∀ o ∈ d'.objs, o.anchor = true → eqv fuel d'.objs b o.id o.id = true) :=
+  graph_unchanged_only_if_equivalent d'.objs b hw h2 hstable
+
 /-! ## non-vacuity: a device with a managed user and a manually created tunnel-group chain -/
 
 def sRef (key : String) (k : Kind) (n : String) : Sub :=
@@ -196,8 +227,63 @@ def gpChain : List Obj :=
 
 example : ((engineF 4 [] gpChain).map (·.length), (engineF 9 [] gpChain).map (·.length)) = (some 12, some 16) := by decide
 
+/-- a device that is equivalent to `exB` under other names and in another order: nothing is emitted, the hypotheses of
+`graph_unchanged_only_if_equivalent` hold and so does its conclusion -/
+def exC : List Obj := [
+  { kind := .acl, name := "f-DRC-0", drc := true, lines := ["extended permit ip host 10.3.4.2 any4"] },
+  { kind := .gp, name := "G-DRC-0", drc := true, secs := [{ head := "internal" },
+      { head := "attributes", mode := true, subs := [sPlain "vpn-idle-timeout 30", sRef "vpn-filter value" .acl "f-DRC-0"] }] },
+  { kind := .user, name := "u1", anchor := true, secs := [
+      { head := "attributes", mode := true, subs := [sPlain "service-type remote-access", sRef "vpn-group-policy" .gp "G-DRC-0"] },
+      { head := "nopassword" }] }]
+
+set_option maxRecDepth 8000 in
+example : engine exC exB = some [] ∧ wfB exC exB = true ∧ wf2B exC exB = true ∧
+    eqv fuel exC exB (.user, "u1") (.user, "u1") = true ∧ view exC = view exB := by decide
+
+set_option maxRecDepth 8000 in
+/-- the hypotheses of `graph_converges_partial` hold for the run on `exA` / `exB` -/
+example : ((engine exA exB).bind (execAll { objs := exA })).map
+    (fun d => (wfB d.objs exB, wf2B d.objs exB, engine d.objs exB == some [])) = some (true, true, true) := by decide
+
+/-- `wf2B` is needed: a target with two sub-commands of the same key (no ASA configuration: `vpn-filter` holds one value) is
+compared through the last of them only — nothing is emitted although the device lacks the other one -/
+def dupB : List Obj := [
+  { kind := .acl, name := "f", lines := ["extended permit ip host 10.3.4.2 any4"] },
+  { kind := .acl, name := "g", lines := ["extended deny ip any4 any4"] },
+  { kind := .user, name := "u1", anchor := true, secs := [{ head := "nopassword" },
+      { head := "attributes", mode := true, subs := [sRef "vpn-filter value" .acl "g", sRef "vpn-filter value" .acl "f"] }] }]
+def dupA : List Obj := [
+  { kind := .acl, name := "f-DRC-0", drc := true, lines := ["extended permit ip host 10.3.4.2 any4"] },
+  { kind := .user, name := "u1", anchor := true, secs := [{ head := "nopassword" },
+      { head := "attributes", mode := true, subs := [sRef "vpn-filter value" .acl "f-DRC-0"] }] }]
+
+set_option maxRecDepth 8000 in
+example : engine dupA dupB = some [] ∧ wfB dupA dupB = true ∧ wf2B dupA dupB = false ∧
+    eqv fuel dupA dupB (.user, "u1") (.user, "u1") = false := by decide
+
+/-- The converse of `graph_unchanged_only_if_equivalent` does NOT hold for equivalence of content: a device on which two users
+share ONE group-policy has the same view as a target with two identical group-policies, yet the second user gets a
+group-policy of its own (the device object is `needed` by the first comparison already); the result converges and the next
+compare is empty.  So a theorem "second compare empty" needs the finer relation "isomorphic up to names" — not proved. -/
+def shA : List Obj := [
+  { kind := .gp, name := "G-DRC-0", drc := true, secs := [{ head := "internal" }, { head := "attributes", mode := true, subs := [sPlain "vpn-idle-timeout 30"] }] },
+  { kind := .user, name := "u1", anchor := true, secs := [{ head := "nopassword" }, { head := "attributes", mode := true, subs := [sRef "vpn-group-policy" .gp "G-DRC-0"] }] },
+  { kind := .user, name := "u2", anchor := true, secs := [{ head := "nopassword" }, { head := "attributes", mode := true, subs := [sRef "vpn-group-policy" .gp "G-DRC-0"] }] }]
+def shB : List Obj := [
+  { kind := .gp, name := "G1", secs := [{ head := "internal" }, { head := "attributes", mode := true, subs := [sPlain "vpn-idle-timeout 30"] }] },
+  { kind := .gp, name := "G2", secs := [{ head := "internal" }, { head := "attributes", mode := true, subs := [sPlain "vpn-idle-timeout 30"] }] },
+  { kind := .user, name := "u1", anchor := true, secs := [{ head := "nopassword" }, { head := "attributes", mode := true, subs := [sRef "vpn-group-policy" .gp "G1"] }] },
+  { kind := .user, name := "u2", anchor := true, secs := [{ head := "nopassword" }, { head := "attributes", mode := true, subs := [sRef "vpn-group-policy" .gp "G2"] }] }]
+
+set_option maxRecDepth 8000 in
+example : view shA = view shB ∧ script shA shB = some ["group-policy G2-DRC-0 internal", "group-policy G2-DRC-0 attributes",
+      "vpn-idle-timeout 30", "exit", "username u2 attributes", "vpn-group-policy G2-DRC-0"] ∧
+    ((engine shA shB).bind (execAll { objs := shA })).map (fun d => (view d.objs == view shB, script d.objs shB)) = some (true, some []) := by
+  decide
+
 def obligations : List Lean.Name := [
-  ``graph_fuel_suffices, ``graph_cleanup_accepted, ``graph_refs_created_first, ``graph_exec_frame, ``graph_body_targets, ``graph_unmanaged_untouched,
+  ``graph_unchanged_only_if_equivalent, ``graph_converges_partial, ``graph_fuel_suffices, ``graph_cleanup_accepted, ``graph_refs_created_first, ``graph_exec_frame, ``graph_body_targets, ``graph_unmanaged_untouched,
   ``graph_untagged_not_pending, ``graph_chain_protected]
 
 end NA.Vpn.G
